@@ -43,6 +43,9 @@ CHECKS['C12'] = dict(level='model_checking', design='1/C12', engine='E-CBMC + E-
      technique='cbmc partial-order encoding of all thread interleavings over C translated from the clang IR of the real atomic.h/Mutex.h operators (AtomicCount, Atomic<int>); plus bounded symbolic execution (z3) of sequential copy/assign/drop histories of Array/Map/HashMap/Shared handles',
      text='Interleavings: the IR that atomic.h and Mutex.h compile to for ++/--/+=/-= on a global AtomicCount and Atomic<int> is translated to C and cbmc decides, for every interleaving of 2-3 threads with up to 3 operations each, that the final value is the initial value plus the sum of all operations (each scenario has a reachability witness; counterexamples are confirmed by a native multi-thread stress run). Sequential: every history of copy/assign/drop operations on three handles keeps each payload alive while referenced and destroys it exactly once.',
      note='PARTIAL: the handle protocols under interleavings are NOT decided (cbmc 6.11 rejects concurrent programs that share heap objects through pointers); only their sequential histories are. Sequential consistency assumed. Trusted: cbmc, z3, engine/ll2c_atomic.py.')
+CHECKS['C17'] = dict(level='model_checking', design='1/C17',
+     text='File::put/write/append/content/firstBytes/read/size, the File stream operators, TextFile::write/text/lines/readLine and BOM decoding are executed symbolically over an in-memory stdio model: every byte content up to the stated size, every text of k filler characters plus symbolic bytes around the 254/255-character fgets chunk edge (LF, CRLF, lone CR, missing final newline), every 1-2 scalar values in UTF-8/UTF-16LE/UTF-16BE BOM files, against reference split/encoders.',
+     note='PARTIAL: stdio is the model env/vstdio.c (trusted; native replays use the real libc and real files); real file systems, sizes > 4 KiB and Directory::copy/move are outside. Trusted: z3, engine IR semantics.')
 NA = {
 }
 ALL = ['C%02d' % i for i in range(1, 21)]
